@@ -178,6 +178,9 @@ pub struct Gc<T: Default + Reset + Traceable> {
     /// Weak reference to space - used to check if space is still alive before accessing ptr
     /// This prevents use-after-free when Gc outlives the Space (e.g., during interpreter shutdown)
     space: Weak<RefCell<Space<T>>>,
+
+    #[cfg(feature = "verif-hooks")]
+    generation: u32,
 }
 
 impl<T: Default + Reset + Traceable> PartialEq for Gc<T> {
@@ -197,12 +200,27 @@ impl<T: Default + Reset + Traceable> Eq for Gc<T> {}
 impl<T: Default + Reset + Traceable> Gc<T> {
     /// Borrow the inner data immutably
     pub fn borrow(&self) -> Ref<'_, T> {
+        #[cfg(feature = "verif-hooks")]
+        self.verif_check("borrow");
         unsafe { self.ptr.as_ref().data.borrow() }
     }
 
     /// Borrow the inner data mutably
     pub fn borrow_mut(&self) -> RefMut<'_, T> {
+        #[cfg(feature = "verif-hooks")]
+        self.verif_check("borrow_mut");
         unsafe { self.ptr.as_ref().data.borrow_mut() }
+    }
+
+    #[cfg(feature = "verif-hooks")]
+    fn verif_check(&self, op: &'static str) {
+        if self.space.upgrade().is_none() {
+            return;
+        }
+        let gc_box = unsafe { self.ptr.as_ref() };
+        if gc_box.pooled.get() || gc_box.generation.get() != self.generation {
+            crate::verif_hooks::stale_event(op);
+        }
     }
 
     /// Get the object's unique ID (pointer address)
@@ -255,9 +273,13 @@ impl<T: Default + Reset + Traceable> Clone for Gc<T> {
                 gc_box.ref_count.set(gc_box.ref_count.get() + 1);
             }
         }
+        #[cfg(feature = "verif-hooks")]
+        self.verif_check("clone");
         Self {
             ptr: self.ptr,
             space: self.space.clone(),
+            #[cfg(feature = "verif-hooks")]
+            generation: self.generation,
         }
     }
 }
@@ -282,6 +304,11 @@ impl<T: Default + Reset + Traceable> Drop for Gc<T> {
 
         if gc_box.pooled.get() {
             return;
+        }
+
+        #[cfg(feature = "verif-hooks")]
+        if gc_box.generation.get() != self.generation {
+            crate::verif_hooks::stale_event("drop-onto-new-tenant");
         }
 
         let count = gc_box.ref_count.get();
@@ -352,6 +379,9 @@ pub struct GcBox<T: Default + Reset + Traceable> {
 
     /// Whether this object is in the pool (dead)
     pooled: Cell<bool>,
+
+    #[cfg(feature = "verif-hooks")]
+    generation: Cell<u32>,
     // Generation counter - incremented each time slot is reused from pool.
     // Old Gc pointers with different generations don't affect ref_count.
     // generation: Cell<u32>,
@@ -364,6 +394,8 @@ impl<T: Default + Reset + Traceable> GcBox<T> {
             data: RefCell::new(data),
             ref_count: Cell::new(0),
             pooled: Cell::new(false),
+            #[cfg(feature = "verif-hooks")]
+            generation: Cell::new(0),
             // generation: Cell::new(0),
         }
     }
@@ -546,6 +578,8 @@ impl<T: Default + Reset + Traceable> Space<T> {
         Gc {
             ptr,
             space: self.self_weak.clone(),
+            #[cfg(feature = "verif-hooks")]
+            generation: unsafe { ptr.as_ref() }.generation.get(),
         }
     }
 
@@ -565,6 +599,11 @@ impl<T: Default + Reset + Traceable> Space<T> {
 
         // Mark as pooled (reset already called in sweep or will be called on reuse)
         gc_box.pooled.set(true);
+        #[cfg(feature = "verif-hooks")]
+        {
+            gc_box.generation.set(gc_box.generation.get().wrapping_add(1));
+            crate::verif_hooks::count_swept();
+        }
 
         // Add pointer to pool for reuse
         self.free_list.push(ptr);
@@ -698,6 +737,8 @@ impl<T: Default + Reset + Traceable> Space<T> {
 
     /// Run mark-and-sweep collection
     fn collect(&mut self) {
+        #[cfg(feature = "verif-hooks")]
+        crate::verif_hooks::count_collection();
         self.mark();
         self.sweep();
         self.net_allocs = 0;
